@@ -1969,6 +1969,10 @@ def python_to_sdocs(
     if depth is None:
         depth = float('inf')
 
+    if max_seq_len is None:
+        # Documented: None disables truncation.
+        max_seq_len = sys.maxsize
+
     doc = pretty_python_value(
         value,
         ctx=PrettyContext(
